@@ -76,7 +76,7 @@ package rr
 
 //@ func gr4j(rainfall, pet, s0, r0, n1, n2, q1State, q9State, x1, x2, x3, x4, runoff) returns (rS, rR, rN1, rN2, rQ1, rQ9)
 //@   noalias
-//@   safety C15
+//@   safety C15 C10 kinds=bounds,div0,nil,conv
 //@   requires rainfall.len == pet.len && rainfall.len == runoff.len
 //@   requires forall(t, 0, rainfall.len, rainfall.at(t) >= 0 && pet.at(t) >= 0)
 //@   requires x1 >= 1 && x3 >= 1 && 0.5 <= x4 && x4 <= 4
@@ -88,19 +88,22 @@ package rr
 //@   loop 1 invariant 1 <= i && i <= n1 && len(UH1) == n1 && len(SH1) == n1
 //@   loop 1 invariant [C15.uh1] forall(k, 0, i, UH1[k] == gr4jSS1(real(k+1), x4) - gr4jSS1(real(k), x4))
 //@   loop 1 invariant forall(k, 0, n1, SH1[k] == gr4jSS1(real(k+1), x4))
-//@   loop 2 invariant 0 <= i && len(SH2) == n2 && real(i) <= x4 && i <= n2
+//@   loop 2 invariant 0 <= i && len(SH2) == n2 && real(i) <= x4 && i <= n2 && len(SH1) == n1 && len(UH1) == n1
 //@   loop 2 invariant forall(k, 0, i, SH2[k] == gr4jSS2(real(k+1), x4))
-//@   loop 3 invariant 0 <= i && i <= n2 && len(SH2) == n2
-//@   loop 3 invariant [C15.sh2] forall(k, 0, i, SH2[k] == gr4jSS2(real(k+1), x4))
+//@   loop 3 invariant 0 <= i && i <= n2 && len(SH2) == n2 && real(i+1) > x4
+//@   loop 3 invariant [C15.sh2] forall(k, 0, min(i, n2-1), SH2[k] == gr4jSS2(real(k+1), x4))
 //@   loop 4 invariant 1 <= i && i <= n2 && len(UH2) == n2 && len(SH2) == n2
 //@   loop 4 invariant [C15.uh2] forall(k, 0, i, UH2[k] == gr4jSS2(real(k+1), x4) - gr4jSS2(real(k), x4))
 //@   loop 4 invariant forall(k, 0, n2, SH2[k] == gr4jSS2(real(k+1), x4))
 //@   loop 5 invariant 0 <= day && day <= nDays && len(UH1) == n1 && len(UH2) == n2
 //@   loop 5 invariant implies(day < nDays, rainfall.at(day) >= 0 && pet.at(day) >= 0)
 //@   loop 5 invariant [C10.gr4j-stores] 0 <= S && S <= x1 && R >= 0
+//@   loop 5 step Ps == gr4jPs(pre(S), x1, rainfall.at(day), pet.at(day)) && Es == gr4jEs(pre(S), x1, rainfall.at(day), pet.at(day))
+//@   loop 5 step Perc == gr4jPerc(gr4jS1(pre(S), x1, rainfall.at(day), pet.at(day)), x1)
+//@   loop 5 step [C15.effective-rainfall] Pr == gr4jPr(pre(S), x1, rainfall.at(day), pet.at(day))
 //@   loop 5 step [C15.production] post(S) == gr4jS1(pre(S), x1, rainfall.at(day), pet.at(day)) - gr4jPerc(gr4jS1(pre(S), x1, rainfall.at(day), pet.at(day)), x1)
-//@   loop 5 step [C15.uh1-convolution] forall(k, 0, n1-1, q9State[k] == pre(q9State[k+1]) + gr4jPr(pre(S), x1, rainfall.at(day), pet.at(day))*0.9*UH1[k+1]) && q9State[n1-1] == 0
-//@   loop 5 step [C15.uh2-convolution] forall(k, 0, n2-1, q1State[k] == pre(q1State[k+1]) + gr4jPr(pre(S), x1, rainfall.at(day), pet.at(day))*0.1*UH2[k+1]) && q1State[n2-1] == 0
+//@   loop 5 step [C15.uh1-convolution] forall(k, 0, n1-1, q9State[k] == pre(q9State[k+1]) + (Pr*0.9*UH1[k+1])) && q9State[n1-1] == 0
+//@   loop 5 step [C15.uh2-convolution] forall(k, 0, n2-1, q1State[k] == pre(q1State[k+1]) + (Pr*0.1*UH2[k+1])) && q1State[n2-1] == 0
 //@   loop 5 step [C15.routing-store] post(R) == gr4jR1(pre(R), pre(q9State[0]) + gr4jPr(pre(S), x1, rainfall.at(day), pet.at(day))*0.9*UH1[0], x2, x3) - gr4jQr(gr4jR1(pre(R), pre(q9State[0]) + gr4jPr(pre(S), x1, rainfall.at(day), pet.at(day))*0.9*UH1[0], x2, x3), x3)
 //@   loop 5 step [C15.runoff] runoff.at(day) == gr4jQr(gr4jR1(pre(R), pre(q9State[0]) + gr4jPr(pre(S), x1, rainfall.at(day), pet.at(day))*0.9*UH1[0], x2, x3), x3) + max(0.0, pre(q1State[0]) + gr4jPr(pre(S), x1, rainfall.at(day), pet.at(day))*0.1*UH2[0] + gr4jF(pre(R), x2, x3))
 //@   loop 5 step [C10.gr4j-runoff-nonneg] runoff.at(day) >= 0
